@@ -12,7 +12,7 @@ use serde_json::json;
 
 pub const ID: &str = "C07";
 
-pub const RULE: &str = "cases = (grammar, input, input kind): C01/C02-class grammars in which EVERY node is wrapped in map_with(|v, e| e.span()) and which contain the other capture sites at random nodes -- to_span, to_slice, map_with(slice), try_map (span argument), try_map_with / validate (e.span()), select!(.. => e.span()), foldl_with / foldr_with callbacks -- over the input kinds &str (1..4-byte characters), &[char], Stream, and token-with-span inputs with GAPPED spans: slice.map(eoi, ..), Stream::map(eoi, ..) and IterInput (Input-only: just / end / empty and combinators), incl. eoi spans beyond the last token. Oracle: the reference knows the token range [s, e) each node consumed on the successful path; expected span = byte offsets for &str, indices for slices / streams, tok[s].start .. tok[e-1].end for token-span inputs; an EMPTY match must get an empty span lying between the end of the preceding and the start of the following token (input start / eoi at the borders). Oracle-free, on every span in the output: start <= end, inside the input, on char boundaries, non-empty children nested in their parent. Slices: content == input[span], length equal, and slice.as_ptr() == input.as_ptr() + start (same memory, no copy). Statically typed families: bytes::Bytes as the input (5 parsers with slice captures x every byte string over {a b c} up to length 6 / 8: differential against &[u8] plus pointer identity on both) and map_with applied to an item source (x.repeated().map_with(f) under collect / enumerate / foldl_with / foldr_with on every string over {a b e-acute G-clef} up to length 5 / 6 and on a gapped token-span input: the mapper sees the span and slice of each step). NON-TRIVIAL = an empty match strictly between two tokens, or a capture evaluated after a backtrack over consumed input, or multi-byte text, or a gapped token-span input; distinct = distinct (sub-check, grammar, input, spans).";
+pub const RULE: &str = "cases = (grammar, input, input kind): C01/C02-class grammars in which EVERY node is wrapped in map_with(|v, e| e.span()) and which contain the other capture sites at random nodes -- to_span, to_slice, map_with(slice), try_map (span argument), try_map_with / validate (e.span()), select!(.. => e.span()), foldl_with / foldr_with callbacks -- over the input kinds &str (1..4-byte characters), &[char], Stream, and token-with-span inputs with GAPPED spans: slice.map(eoi, ..), Stream::map(eoi, ..) and IterInput (Input-only: just / end / empty and combinators), incl. eoi spans beyond the last token. Oracle: the reference knows the token range [s, e) each node consumed on the successful path; expected span = byte offsets for &str, indices for slices / streams, tok[s].start .. tok[e-1].end for token-span inputs; an EMPTY match must get an empty span lying between the end of the preceding and the start of the following token (input start / eoi at the borders). Oracle-free, on every span in the output: start <= end, inside the input, on char boundaries, non-empty children nested in their parent. Slices: content == input[span], length equal, and slice.as_ptr() == input.as_ptr() + start (same memory, no copy). Statically typed families: bytes::Bytes as the input (5 parsers with slice captures x every byte string over {a b c} up to length 6 / 8: differential against &[u8] plus pointer identity on both) and map_with applied to an item source (x.repeated().map_with(f) under collect / enumerate / foldl_with / foldr_with on every string over {a b e-acute G-clef} up to length 5 / 6 and on a gapped token-span input: the mapper sees the span and slice of each step). The span TYPE of token-span inputs (SimpleSpan, Range<usize>, (context, SimpleSpan), (context, Range<usize>): each has its own Span implementation) must not change the captured numbers. NON-TRIVIAL = an empty match strictly between two tokens, or a capture evaluated after a backtrack over consumed input, or multi-byte text, or a gapped token-span input; distinct = distinct (sub-check, grammar, input, spans).";
 
 pub const ASSUMPTIONS: &[&str] = &[
     "the reference's consumed extents (C01 ties them to PEG semantics); fold_with callbacks: foldl_with sees the span from the start of the whole fold to the end of the current item, foldr_with from the current item('s step) to the end of the tail",
